@@ -62,6 +62,12 @@ def extract(shadow):
         Rule('CV_SIZE_TYPE', r'using size_type = typename LengthType< L>::type;', 'typedef CV_SIZE_TYPE size_type;', 1),
         Rule('R-ACCESS', r'^private:', 'public:', 1),
         Rule('R-THROW', r'throw std::out_of_range\([^;]*\);', 'CV_THROW( 1);', 2, flags=re.M | re.S),
+        # T-INST: the two-parameter free operator templates cannot be instantiated by the front end;
+        # bind S := L and give them a callable name (bodies untouched)
+        Rule('T-INST-opeq', r'template< size_t L, size_t S>\n   bool operator ==\( const FixedString< L>& lhs, const FixedString< S>& rhs\)',
+             'template< size_t L>\n   bool cv_op_eq( const FixedString< L>& lhs, const FixedString< L>& rhs)', 1),
+        Rule('T-INST-opne', r'template< size_t L, size_t S>\n   bool operator !=\( const FixedString< L>& lhs, const FixedString< S>& rhs\)',
+             'template< size_t L>\n   bool cv_op_ne( const FixedString< L>& lhs, const FixedString< L>& rhs)', 1),
         Rule('drop-ostream', r'^template< size_t L>\n   std::ostream& operator <<\(.*?\n\} // operator <<\n', '', 1,
              flags=re.M | re.S),
     ]
@@ -90,6 +96,8 @@ class M:
         self.spec = spec          # C11 spec or None (then only C10 applies)
         self.dom10 = dom10        # documented precondition that holds even for C10 (e.g. operator[])
         self.doc = doc
+        self.ctor = False
+        self.raw = None           # C++ body of the wrapper when it is not a plain member call
 
 
 def _ins(cnt, piece):
@@ -200,6 +208,9 @@ def wrappers_text(L, methods):
                 params.append('void* %s_p' % name)
                 pre.append('FS& %s = *static_cast<FS*>(%s_p);' % (name, name))
         call = 'static_cast<FS*>(self)->' + m.call
+        if m.raw:
+            o.append('%s w_%s(%s) { %s %s }' % ({'v': 'void', 'B': 'int', 'z': 'size_t'}[m.ret], m.id, ', '.join(params), ' '.join(pre), m.raw.replace('{L}', str(L))))
+            continue
         if m.ret == 'r':
             body = ' '.join(pre) + ' FS& cv_r = %s; return &cv_r == static_cast<FS*>(self);' % call
             rt = 'int'
@@ -257,7 +268,7 @@ def src_ghost_decl(name, K):
     return ''.join(', char %s_%d' % (name, j) for j in range(K))
 
 
-def contract_text(m, L, K, c11):
+def contract_text(m, L, K, c11, extra_req=()):
     """The C contract function + harness for one method."""
     params = ['void* self']
     ghosts = []          # extra ghost params (source contents, lengths)
@@ -297,7 +308,12 @@ def contract_text(m, L, K, c11):
             defs.append('#define SRC_%s(j) %s' % (name, cond_chain(name + '_', K, 'j')))
         elif kind == 'd':
             params.append('char* ' + name); hdecl.append('char* %s;' % name); hargs.append(name); wargs.append(name)
-            req.append('%s <= K && __CPROVER_is_fresh(%s, %s)' % (m.blen, name, m.blen))
+            req.append('__CPROVER_is_fresh(%s, %s)' % (name, m.blen))
+            ghosts += ['char %s_%d' % (name, j) for j in range(L)]
+            hdecl += ['char %s_%d;' % (name, j) for j in range(L)]
+            for j in range(L):
+                req.append('(%d >= (%s) || %s[%d] == %s_%d)' % (j, m.blen, name, j, name, j))
+            defs.append('#define SRC_%s(j) %s' % (name, cond_chain(name + '_', L, 'j')))
         elif kind == 'F':
             params.append('void* ' + name); hdecl.append('void* %s;' % name); hargs.append(name); wargs.append(name)
             req.append('__CPROVER_is_fresh(%s, OBJSZ) && WF(%s)' % (name, name))
@@ -306,27 +322,44 @@ def contract_text(m, L, K, c11):
             hdecl += ['size_t %s_n;' % name] + ['char %s_%d;' % (name, j) for j in range(L)]
             req.append('w_length(%s) == %s_n' % (name, name) + ''.join(' && w_char_at(%s,%d) == %s_%d' % (name, j, name, j) for j in range(L)))
             defs.append('#define SRC_%s(j) %s' % (name, cond_chain(name + '_', L, 'j')))
+    if m.ret == 'str':
+        params.append('char* out'); hdecl.append('char* out;'); hargs.append('out'); wargs += ['out', 'L']
+        req.append('__CPROVER_is_fresh(out, L)')
+    if m.ret == 'cT':
+        params.append('int* thrown'); hdecl.append('int* thrown;'); hargs.append('thrown'); wargs.append('thrown')
+        req.append('__CPROVER_is_fresh(thrown, sizeof(int))')
     gl = ['size_t g_len'] + ['char g%d' % i for i in range(L)]
     hdecl += ['size_t g_len;'] + ['char g%d;' % i for i in range(L)]
     allp = params + gl + ghosts
     hcall = hargs + ['g_len'] + ['g%d' % i for i in range(L)] + [g.split()[-1] for g in ghosts]
-    rt = {'r': 'int', 'v': 'void', 'z': 'size_t', 'i': 'int', 'B': 'int', 'c': 'char'}[m.ret]
+    rt = {'r': 'int', 'v': 'void', 'z': 'size_t', 'i': 'int', 'B': 'int', 'c': 'char', 'str': 'size_t', 'cT': 'char'}[m.ret]
     o = list(defs)
     o.append('%s cw_%s(%s)' % (rt, m.id, ', '.join(allp)))
-    o.append('__CPROVER_requires(__CPROVER_is_fresh(self, OBJSZ) && WF(self) && TIE(self))')
+    o.append('__CPROVER_requires(__CPROVER_is_fresh(self, OBJSZ)%s)' % ('' if getattr(m, 'ctor', False) else ' && WF(self) && TIE(self)'))
     for r in req:
         o.append('__CPROVER_requires(%s)' % r)
     if m.dom10:
         o.append('__CPROVER_requires(%s)  /* documented precondition */' % m.dom10)
     spec = m.spec if c11 else None
+    if callable(spec):
+        spec = spec(L, K)
     if spec:
         o.append('__CPROVER_requires(%s)  /* documented domain of the std::string operation */' % spec['dom'])
+    for r in extra_req:
+        o.append('__CPROVER_requires(%s)' % r)
+    if c11:
+        # C11 quantifies over printable contents: object content and sources are NUL-free
+        o.append('__CPROVER_requires(OLD_NOZ%s)  /* C11 domain: NUL-free contents */' % ''.join(' && ' + z for z in noz))
     assigns = ['__CPROVER_object_whole(self)'] if m.mut else []
     for kind, name in m.args:
         if kind == 'F' and m.mut:
             assigns.append('__CPROVER_object_whole(%s)' % name)
         if kind == 'd':
             assigns.append('__CPROVER_object_whole(%s)' % name)
+    if m.ret == 'str':
+        assigns.append('__CPROVER_object_whole(out)')
+    if m.ret == 'cT':
+        assigns += ['*thrown', 'cv_thrown']
     o.append('__CPROVER_assigns(%s)' % '; '.join(assigns))
     o.append('__CPROVER_ensures(WF(self))')
     if m.ret == 'r':
@@ -344,9 +377,14 @@ def contract_text(m, L, K, c11):
             for k in range(L):
                 o.append('__CPROVER_ensures(%d >= NEWLEN || w_char_at(self,%d) == (char)(EXPECT(%dul)))' % (k, k, k))
             o.append('#undef NEWLEN\n#undef EXPECT')
+            for cl in spec.get('extra', []):
+                o.append('__CPROVER_ensures(%s)' % cl)
         else:
             for cl in spec['result']:
-                o.append('__CPROVER_ensures(%s)' % cl)
+                if cl.startswith('#define'):
+                    o.append(cl)
+                else:
+                    o.append('__CPROVER_ensures(%s)' % cl)
     call = 'w_%s(%s)' % (m.id, ', '.join(wargs))
     o.append('{ %s%s; }' % ('' if rt == 'void' else 'return ', call))
     o.append('void h_%s(void) { void* self; %s __CPROVER_assert(w_sizeof() == OBJSZ, "layout witness: sizeof(FixedString<L>)"); '
@@ -369,7 +407,11 @@ def wrapper_decl(m):
             params += ['const char* %s_p' % name, 'size_t %s_n' % name]
         elif kind == 'F':
             params.append('void* %s_p' % name)
-    rt = {'r': 'int', 'v': 'void', 'z': 'size_t', 'i': 'int', 'B': 'int', 'c': 'char'}[m.ret]
+    if m.ret == 'str':
+        params += ['char* out', 'size_t out_cap']
+    if m.ret == 'cT':
+        params += ['int* thrown']
+    rt = {'r': 'int', 'v': 'void', 'z': 'size_t', 'i': 'int', 'B': 'int', 'c': 'char', 'str': 'size_t', 'cT': 'char'}[m.ret]
     return '%s w_%s(%s);' % (rt, m.id, ', '.join(params))
 
 
@@ -403,6 +445,9 @@ class Unit:
 
     def clause_text(self, o):
         lines = self.clauses.get(o.get('file', ''))
+        t = core.nth_clause(lines, o)
+        if t:
+            return t
         try:
             return lines[int(o['line']) - 1].strip() if lines else None
         except (ValueError, IndexError):
@@ -439,13 +484,13 @@ class Unit:
         raise Undecided('could not determine sizeof(FixedString<%d>) in the CBMC layout' % L)
 
 
-def make_build(unit, m, L, K, c11, methods):
+def make_build(unit, m, L, K, c11, methods, extra_req=()):
     def build(job, wd):
         st = size_type(L)
         sz = unit.object_size(L, wd)
         key, wpath = unit.files(L, K, c11, methods)
-        ctext = (prelude_c(L, K) + '#define OBJSZ %dul\n' % sz + wrapper_decl(m) + '\n' + contract_text(m, L, K, c11))
-        cname = '%s_%s.c' % (key, m.id)
+        ctext = (prelude_c(L, K) + '#define OBJSZ %dul\n' % sz + wrapper_decl(m) + '\n' + contract_text(m, L, K, c11, extra_req))
+        cname = '%s_%s%s.c' % (key, m.id, '_in' if any('/*in*/' in r for r in extra_req) else '')
         cpath = os.path.join(wd, cname)
         open(cpath, 'w').write(ctext)
         unit.clauses[cname] = ctext.splitlines()
@@ -493,7 +538,7 @@ def native_replay(scratch, L, args):
         rc, out, err, s = core.run(cmd, timeout=300, limit=False)
         if rc != 0:
             return {'outcome': 'unavailable', 'detail': 'replay build failed: ' + err[-800:]}
-    rc, out, err, s = core.run([exe] + args, timeout=60, limit=False)
+    rc, out, err, s = core.run([exe] + args, timeout=60, limit=False, env={'ASAN_OPTIONS': 'detect_leaks=0'})
     text = (out + err).strip()
     rep = rc != 0
     return {'outcome': 'reproduced' if rep else 'not-reproduced',
@@ -503,7 +548,7 @@ def native_replay(scratch, L, args):
 
 def replay(unit, job, o, inputs, scratch):
     L, K = job.instance['L'], job.instance['K']
-    mid = job.name.split('_', 2)[2]
+    mid = job.name.split('_', 2)[2].split('@')[0]
     m = next((x for x in METHODS + OBSERVERS if x.id == mid), None)
     if m is None:
         return {'outcome': 'unavailable', 'detail': 'no method ' + mid}
@@ -515,3 +560,32 @@ def replay_record(rec, scratch):
     if not a:
         return {'outcome': 'unavailable', 'detail': 'record carries no replay arguments'}
     return native_replay(scratch, a['L'], a['argv'])
+
+
+def evidence_info(unit, tier):
+    c11 = unit.prop == 'C11'
+    drops = [d for d in unit.shadow.dropped]
+    return {
+        'explanation': ('Every in-reach public member of FixedString<L> is called once, through an extern "C" wrapper compiled from the '
+                        'shadow header, inside a C function carrying the contract; goto-instrument --dfcc enforces it (requires assumed, '
+                        'ensures and the assigns frame checked). Pre-state reaches the postconditions through ghost parameters tied to the '
+                        'object in the precondition. ' +
+                        ('C11: requires the documented domain of the std::string operation and NUL-free contents; ensures the whole '
+                         'view (length and every character) equals the std::string result cut at L, or the observer result equals '
+                         'std::string\'s. Known findings are excluded as input regions (outside: full contract; inside: only the listed '
+                         'clause may fail).' if c11 else
+                         'C10: positions and counts are unconstrained size_t; ensures WF (length <= L, NUL at length), "no NUL stored => '
+                         'length is the C-string length", returned reference is *this, observers leave the content unchanged; CBMC '
+                         'pointer/bounds checks and the ISO preconditions of mem*/str* are obligations.') +
+                        ' Proof is per capacity instance L (not for all L); loops are bounded by L/K and unwound with unwinding assertions.'),
+        'trusted_base': ['CBMC 6.11 C++ front end on the shadow header (rules and drops listed under extraction)',
+                         'CBMC built-in models of memcpy/memmove/memset/memcmp/strlen/strchr (carry the ISO C preconditions)',
+                         'stand-in <string> (malloc-backed, never freed, allocation assumed to succeed, temporaries longer than CV_STR_CAP not explored), <cstring>, <cstdint>, <stdexcept>',
+                         'MiniSat (built into cbmc)', 'g++ witness: CV_SIZE_TYPE equals LengthType<L>::type',
+                         'layout witness: sizeof(FixedString<L>) in CBMC\'s C++ layout asserted in every harness'],
+        'assumptions': ['per-instance proof: capacities ' + ('3, 5' if c11 else '1, 2, 3, 8') + ' (quick); 255/256 and 65535/65536 length-type boundaries not reached',
+                        'source C-strings / std::string arguments of length <= L+3 (bounded); (str,count) buffers of <= L+3 bytes',
+                        'throw in at() modelled by R-THROW (flag + return)', 'termination not proved',
+                        'iterator classes, iterator overloads, cross-capacity (template<size_t S>) overloads, sprintf, constructors and stream output are not under contract'],
+        'not_under_contract': drops + ['FixedString(const char*) / FixedString(const std::string&) / move constructor (front end aborts on the out-of-class constructor definitions)'],
+    }
